@@ -1,5 +1,5 @@
 import EdpVerif.Impl.Send
-import EdpVerif.Generated.Misc
+import EdpVerif.Generated.MiscC07
 /-!
 C07, second part of the send-side model: a `Connection` as a STATE that a sequence of operations acts on, with operations
 that stop in the middle of their frame, and the node-level wrappers of crates/edp_node/src/node.rs.
